@@ -42,7 +42,8 @@ def run_patch(m, tier):
         for f in files:
             dst = os.path.join(td, "src", f)
             os.makedirs(os.path.dirname(dst), exist_ok=True)
-            open(dst, "w").write(open(os.path.join(REPO, f)).read())
+            if os.path.exists(os.path.join(REPO, f)):
+                open(dst, "w").write(open(os.path.join(REPO, f)).read())
             ov.append(f + "=" + dst)
         pr = subprocess.run(["patch", "-p1", "-s", "--no-backup-if-mismatch", "-d", os.path.join(td, "src"), "-i", pf], capture_output=True, text=True)
         if pr.returncode != 0:
